@@ -30,6 +30,13 @@ def run(tier, seed):
                        'the functional model cannot mutate its argument']
     ck.build(extract=True)
     consensus_check.run_consensus(ck, TAGS, oracle, tier)
+    try:
+        consensus_check.node_relay_probe(ck, tier, TAGS)
+    except Exception:
+        import traceback
+        tb = traceback.format_exc()
+        if 'could not mine a block' not in tb:
+            ck.disagree('node-level relay probe crashed: %s' % tb[-500:], {})
     return ck.finish()
 
 
